@@ -176,7 +176,7 @@ example :
     let W : World := { parse := fun _ e => .ok e.name,
                        emit := fun _ kw _ => .ok (.cls (String.ofList (kw.name.getD [])) [] [] [] []) }
     let cfg : Cfg := { tpl := ['{','n','a','m','e','}','C'], parse := .class_, emit := .class_ }
-    (genEntries W cfg [⟨['A'], .cls false⟩, ⟨['B'], .cls false⟩]).toOption.map (·.2) = some [['A','C'], ['B','C']] := by
+    (genEntries W cfg [⟨['A'], .cls []⟩, ⟨['B'], .cls []⟩]).toOption.map (·.2) = some [['A','C'], ['B','C']] := by
   decide
 
 /-! ## module assembly -/
@@ -427,7 +427,26 @@ theorem parse_argparse_always_fails (W : World) (cfg : Cfg) (hp : cfg.parse = .a
   cases hpf
 
 /-- **`--parse infer` cannot read an argparse function** (`infer` answers `argparse_ast`; no such package) -/
-theorem infer_argparse_fails : parserFor .infer (.fn false true) = .error .moduleNotFound := rfl
+theorem infer_argparse_fails (args : List Str) (h : argumentParserName ∈ args) :
+    parserFor .infer (.fn false args) = .error .moduleNotFound := by
+  simp only [parserFor, inferNode, List.contains_eq_mem, h, decide_true, if_true, bind, Except.bind]
+  rfl
+
+/-- **`infer` on a class looks at every base:** a class is handed to the SQLAlchemy parser exactly when *some* plain-name
+    base is called `Base` — wherever it stands among the bases (mixins before or after it make no difference) — and to
+    the plain-class parser otherwise. -/
+theorem infer_class_any_base (ids : List Str) :
+    (baseName ∈ ids → parserFor .infer (.cls ids) = .ok .sqlalchemy) ∧
+    (baseName ∉ ids → parserFor .infer (.cls ids) = .ok .class_) ∧
+    (∀ pre post, parserFor .infer (.cls (pre ++ baseName :: post)) = .ok .sqlalchemy) := by
+  refine ⟨fun h => ?_, fun h => ?_, fun pre post => ?_⟩
+  · simp only [parserFor, inferNode, List.contains_eq_mem, h, decide_true, if_true, bind, Except.bind]
+    rfl
+  · simp only [parserFor, inferNode, List.contains_eq_mem, h, decide_false, Bool.false_eq_true, if_false, bind, Except.bind]
+    rfl
+  · have h : baseName ∈ pre ++ baseName :: post := by simp
+    simp only [parserFor, inferNode, List.contains_eq_mem, h, decide_true, if_true, bind, Except.bind]
+    rfl
 
 /-- **`--parse infer` cannot read a JSON-schema file** (`infer(dict)` raises `NotImplementedError`) -/
 theorem infer_json_fails (b : Str) :
@@ -506,8 +525,8 @@ theorem C19_full_false : ¬ C19_full := by
   intro h
   let W : World := { parse := fun _ e => .ok e.name, emit := fun _ kw _ => .ok (.cls (String.ofList (kw.name.getD [])) [] [] [] []) }
   let cfg : Cfg := { tpl := ['{','n','a','m','e','}'], parse := .class_, emit := .pydantic }
-  obtain ⟨⟨o, ho⟩, _⟩ := h W cfg (.py [⟨['A'], .cls false⟩])
-  have : gen W cfg (.py [⟨['A'], .cls false⟩]) = .error .keyError := by rfl
+  obtain ⟨⟨o, ho⟩, _⟩ := h W cfg (.py [⟨['A'], .cls []⟩])
+  have : gen W cfg (.py [⟨['A'], .cls []⟩]) = .error .keyError := by rfl
   rw [this] at ho
   cases ho
 
